@@ -256,7 +256,7 @@ impl Property for C14 {
         rng.shuffle(&mut pool);
         for i in 0..nh {
             let preinstalled = rng.chance(1, 3);
-            handlers.push(Handler { vector: if preinstalled { pool[i] } else { 0 }, kind: if rng.chance(1, 3) { HandlerKind::Empty } else { HandlerKind::Count } });
+            handlers.push(Handler { vector: if preinstalled { pool[i] } else { 0 }, kind: if rng.chance(1, 3) { HandlerKind::Empty } else { HandlerKind::Count }, at_zero: false });
         }
         let n = rng.range(2, if tier == Tier::Quick { 14 } else { 30 }) as usize;
         let mut blocks = Vec::new();
